@@ -987,6 +987,12 @@ def r4(ctx, r):
                 for g in fb.funcs(n.get("callee", ""), HSF) if n.get("callee", "").startswith(HS) else []:
                     if g.ok and g.name not in seen:
                         work.append((g, what))
+        # a lambda kept in a local of a reached function and invoked there (`while (dispatchNext()) {}`), or invoked on the spot, runs on
+        # the same thread as that function; lambdas handed to other calls (the thread-pool hand-off) are not followed
+        for (ln, lf) in f.lambdas:
+            role = (cg.lambda_role.get(lf.name) or {}).get("role") if hasattr(cg, "lambda_role") else None
+            if lf.ok and role in ("local", "immediate") and lf.name not in seen:
+                work.append((lf, what))
     funcs = {id(v[0]): v for v in seen.values()}
     if not any(last(v[0].name) == "handleIncomingData" for v in funcs.values()) or not any(last(v[0].name) == "findChunkedRequestEnd" for v in funcs.values()):
         raise AnalysisBroken("handleIncomingData / findChunkedRequestEnd not reachable from the transport data callback")
